@@ -146,4 +146,14 @@ TEXT = {
         "level_text": "handlers that re-enter the object server are called by a scripted peer; a call still unanswered when no actor can move is a deadlock or lost-call witness with the schedule trace",
         "level_note": "two listed known findings (lazy dispatch start race; registration under ObjectManager with a re-entrant getter)",
     },
+    "C38": {"engine": "zb",
+        "technique": "fault enumeration over a scripted session: EOF / I/O error at every inbound byte offset and every write call, under seeded schedules; verdict at scheduler quiescence",
+        "level_text": "the fault position is enumerated exhaustively for one session script; for each, the completion state of every pending call, send and stream is compared with what the completely-received prefix dictates",
+        "level_note": "positions are exhaustive for the script; schedules are sampled",
+    },
+    "C39": {"engine": "zb",
+        "technique": "peer-side EOF monitor over random handle sets and drop orders; gate-controlled handlers for graceful shutdown ordering",
+        "level_text": "the scripted peer watches for the transport closing while the harness drops handles / opens handler gates in random order under a seeded scheduler",
+        "level_note": "EOF must not appear before the last handle is gone / the last handler replied, and must appear at quiescence afterwards",
+    },
 }
